@@ -100,7 +100,10 @@ impl Numeric {
 
 impl PartialEq for Numeric {
     fn eq(&self, other: &Self) -> bool {
-        self.partial_cmp(other) == Some(std::cmp::Ordering::Equal)
+        // A unitless number is comparable to, but never equal to, a
+        // number with a unit.
+        (self.is_no_unit() == other.is_no_unit())
+            && self.partial_cmp(other) == Some(std::cmp::Ordering::Equal)
     }
 }
 impl Eq for Numeric {}
@@ -110,10 +113,7 @@ impl PartialOrd for Numeric {
         if self.unit == other.unit {
             self.value.partial_cmp(&other.value)
         } else if self.is_no_unit() || other.is_no_unit() {
-            match self.value.partial_cmp(&other.value) {
-                Some(std::cmp::Ordering::Equal) => None,
-                other => other,
-            }
+            self.value.partial_cmp(&other.value)
         } else if let Some(scaled) = other.as_unitset(&self.unit) {
             self.value.partial_cmp(&scaled)
         } else {
